@@ -320,7 +320,7 @@ func (p *Proxy) handleLoop(conn net.Conn) {
 		p.connsMu.Unlock()
 	}()
 	defer p.connsWg.Add(-1)
-	defer conn.Close()
+	defer lingeringClose(conn)
 	if p.closing() {
 		return
 	}
@@ -466,3 +466,27 @@ func (panicReader) Read(p []byte) (int, error) {
 }
 
 var panicBody = io.NopCloser(panicReader{})
+
+// lingeringCloseTimeout is how long a connection that is being closed is read from (and what is
+// read thrown away) after its write side has been shut down.
+const lingeringCloseTimeout = 500 * time.Millisecond
+
+// lingeringClose closes conn. If the peer has sent bytes that were not read - a request sent while
+// the last response was on its way - a plain close makes the kernel reset the connection and drop
+// what has not been delivered yet. So the write side is shut down first, and the read side is
+// drained until the peer closes or a moment has passed.
+func lingeringClose(conn net.Conn) {
+	defer conn.Close()
+
+	cw, ok := asCloseWriter(conn)
+	if !ok {
+		return
+	}
+	if err := cw.CloseWrite(); err != nil {
+		return
+	}
+	if err := conn.SetReadDeadline(time.Now().Add(lingeringCloseTimeout)); err != nil {
+		return
+	}
+	io.Copy(io.Discard, io.LimitReader(conn, 1<<20)) //nolint:errcheck // the connection is closed anyway
+}
